@@ -392,12 +392,16 @@ var ruleText = "Per reactor (consensus manager incl. consensus state, block sync
 	"byte fields of length {0,1,19,20,21,31,32,33,64,65,66,65536,65537} plus original-1/+1 byte/bit-flipped/all-0/all-ff; sub-messages empty/garbage/unknown-field; repeated fields x{0,2,3,10001}; bit arrays bits{0,1,4,5,64,65,10000,10001,2^31,2^32-1,2^63,2^64-1} x elems{0,1,2,157}); " +
 	"every pair of (reduced-set) mutations on NewRoundStep and VoteSetBits; the full product of boundary values {0, limit-1, limit, limit+1, limit+2, 2^31, max} over each group of semantically coupled fields whose validation is split over several checks (BlockPart part.index x proof.index x proof.total around the part-set total; Vote validator_index x validator_address, raw and signed; Proposal round x pol_round, raw and signed; NewValidBlock part_set_header.total x block_parts bits x is_commit; HasVote index x type x round and VoteSetBits votes bits x type x round around the validator count; NewRoundStep height {0,1,2,h-2..h+2,2^63,2^64-2,2^64-1} x round x step x last_commit_round {0,1,max}), and claimed-position sequences (a NewRoundStep claiming height {h-2..h+2, 2^63, 2^64-2, 2^64-1} with the last_commit_round that passes ValidateHeight, then NewRoundStep / NewValidBlock / HasVote / VoteSetBits / VoteSetMaj23 / ProposalPOL for the claimed height +-1), each followed by the real gossipData / gossipVotes / queryMaj23 routines on the resulting peer state (catch-up branches against the node's real block store, stored commit present and absent), in every node state plus a node at height 3, both tiers; every truncation and every single-byte substitution (alphabet 00 01 08 7f 80 ff) of each valid encoding; every 1- and 2-byte string; " +
 	"votes/proposals/evidence mutated before signing (the peer is a validator); every single-field mutation of the proposed block by the round's proposer, raw and with header hashes recomputed; " +
+	"stored consensus messages followed by a DRIVE-ON (votes prevote/precommit, proposals, block parts for height {cur-1,cur,cur+1} x round {cur..cur+4, 1000} x signature {valid, junk}, and every valid seed): after the delivery the node's own timeouts fire and the other validators vote nil until it has entered >= 3 more rounds (variant: and commits a height on a valid block); it must still be alive (no recovered handler panic = CONSENSUS FAILURE, still signing); " +
 	"transaction fetcher (explicit-state search on the real tx_pool.Reactor + fetcher.TxFetcher loop goroutine + TxPool): every sequence of <= 5 (thorough 6) events over {A/B announces h1 | h2 | h1+h2; A/B broadcasts Txs{h1} | Txs{h2}; A/B sends PooledTransactions{h1} | {h2} | {h1,h2} | {h3 never announced} (solicited or not: full / partial / wrong answers); A/B removed; A/B re-added; time passes beyond the arrival timeout (600 ms) / beyond the request timeout (5.1 s) on the fetcher's own injected mclock.Simulated; park = the next request goroutine the loop spawns is delayed at its call of the real fetchTxs callback; late = that call runs only now}, breadth-first per first event, states de-duplicated by a canonical dump of the fetcher's maps + pool content + registered peers, quiescence by counted loop iterations and a no-op Drop round trip (no wall clock); " +
 	"delivered on every channel id of the reactor plus a foreign id, in node states {wait-sync, NewHeight, Propose, Prevote (nil), Prevote (proposal and block received), PrevoteWait, Precommit, Commit-waiting-for-parts at height 1; NewHeight, Propose, Commit-waiting at height 2} x peer {fresh, known (announced the node's round, gossiped to), removed}. " +
 	"Thorough tier: pairs on every consensus message type. Quick tier: pairs, byte-level cases and foreign channels in 3 of the 11 states; strings the decoder rejects (they end before any state is read) in 2 states and from fresh peers only. " +
 	"A case is distinct by (reactor, channel, message type, field, mutation class, node state, peer state, stage reached) where stage is one of decode-error / rejected-peer-stopped / accepted-no-effect / answered / peer-state-changed / node-state-changed / contained-panic / handler-panic / reactor-specific effects."
 
 var assumptions = []string{
+	"A Go runtime error (index out of range, nil dereference, slice bounds, makeslice) inside Receive's own stack on a message of a live peer is a violation (oracle runtime-error-in-receive: the property says the node does not panic), although the connection's recover contains it; explicit panics of the repository's own code in Receive (e.g. 'Peer has no state' for an already removed peer) stay recorded-only under the contained-panic rule.",
+	"Drive-on: the environment after a delivery is the netsim one (the node's pending timeouts fire, the other three validators send correctly signed nil votes, in the commit variant the round's proposer's valid block and votes for it); 'alive' = the synchronously driven handlers did not panic (VerifNode.Failed == nil, the analogue of receiveRoutine's CONSENSUS FAILURE recover) and the node kept signing.",
+	"Rejection oracle for bit arrays: only arrays whose word count matches their bit count are expected to be rejected when oversized; since ad4f98a an array whose bits and words disagree is taken as EMPTY by FromProto, which VoteSetBits accepts by design.",
 	"Transaction fetcher search: the fetcher's real loop() runs on its own goroutine under a recover installed by the in-package accessor; a panic there is ALWAYS a violation (production has no recover: the process dies). The clock is the fetcher's own injectable clock (mclock.Simulated set through the accessor before the loop starts), iteration order its own deterministic test mode (rand seeded with 1). Oracles after every sequence: no panic on the loop goroutine or inside Receive/RemovePeer, no lock held, the bookkeeping maps agree (waitlist/waittime/waitslots mirror each other; a hash is in exactly one stage; alternates exist exactly for hashes being fetched; every hash being fetched has the request record of that peer and vice versa; announces has an origin for each of its entries; nothing that is scheduled or dereferenced - waitslots, waitlist, announces, requests, fetching - names a removed peer; only announced hashes not in the pool are tracked), a valid transaction delivered by a registered peer is in the pool, the underpriced one never is.",
 	"Request goroutines of the fetcher (`go func(){ f.fetchTxs(peer, hashes) }` in scheduleFetches) have no synchronisation with Receive/RemovePeer: the search delays at most one such call at a time (events park/late) through a wrapper around the fetchTxs callback installed by the in-package accessor; the wrapper recovers and records a panic of the real callback (it is the goroutine body's callee, so this is exactly the panic that kills the process in production: always a violation); a callback error makes the goroutine Drop the peer, which the quiescence accounting counts as one more loop iteration.",
 	"Weakest reading, recorded as an observation (fetcher_states_with_a_stale_origin_observed) and not as a violation: the drop handling removes a peer from `announced` but not from the `alternates` of a hash being fetched from another peer (same code as go-ethereum v1.9.15); the stale origin is never scheduled (scheduling walks `announces`) and so is never dereferenced; it can leave a hash parked in `announced` until somebody announces or delivers it again.",
